@@ -60,6 +60,9 @@ class ModTarget:
         if self.kind == 'region':
             if key[0] != self.fam or key[1] != self.tk:
                 return None
+            pre = getattr(self, 'prefix', None)
+            if pre and key[2][:len(pre)] != pre:
+                return None
             return z3.BoolVal(True)
         if self.kind == 'map':
             if key[0] != 'map' or key[1] != self.tk:
@@ -132,9 +135,7 @@ class Instrs(CallsMixin):
             st.assume(cond_ok)
             return
         if con.panics_if:
-            ev = cx.evaluator(cx.entry_state.with_sink(st), fr)
-            ev.resolver = None
-            allowed = z3.Or([ev.bool(c.expr) for c in con.panics_if])
+            allowed = cx.panic_allowed(st, fr)
             goal = z3.Or(cond_ok, allowed)
             cx.prove(st, goal, name, 'panic', pos, what, assume_after=False)
             st.assume(cond_ok)
@@ -715,14 +716,37 @@ class Instrs(CallsMixin):
     def op_RunDefers(self, st, fr, b, i, ins):
         ds = [d for d in st.defers if d[0] is fr]
         st.defers = [d for d in st.defers if d[0] is not fr]
-        for (f2, dins) in reversed(ds):
+        return self.run_defers(st, fr, b, i, list(reversed(ds)))
+
+    def run_defers(self, st, fr, b, i, ds):
+        """run the deferred calls in order; a deferred local closure is inlined when the contract
+        asks for it (`opt inline-defers yes`): on the normal path recover() returns nil, so the
+        closure's body is exactly what runs before the function returns"""
+        cx = self.cx
+        ds = list(ds)
+        while ds:
+            (f2, dins) = ds.pop(0)
             call = dins['call']
             name = (call.get('fn') or {}).get('name', '')
             if name in ERASED_CALLS:
                 self.cx.erased.add(name)
                 continue
             fake = {'op': 'Call', 'call': call, 'name': fresh_name('defer'), 'type': '()', 'pos': dins.get('pos')}
+            fnv = call.get('fn') or {}
+            if cx.contract.opts.get('inline-defers') and fr is cx.top and 'invoke' not in call and fnv.get('k') == 'reg':
+                fv = self.operand(st, fr, fnv)
+                fnd = self.prog.funcs.get(fv.fn) if fv.fn else None
+                if fnd is not None and '$' in fv.fn.split('::')[1] and self.prog.cs.funcs.get(fv.fn) is None:
+                    rest = list(ds)
+                    args = [self.operand(st, fr, a) for a in call['args']]
+
+                    def cont(st2, rest=rest):
+                        r = self.run_defers(st2, fr, b, i, rest)
+                        if r is None:
+                            cx.exec_from(st2, fr, b, i + 1)
+                    return self.call_inline(st, fr, b, i, fake, fv.fn, fnd, fv.bindings or [], args, cont=cont)
             r = self.do_call(st, fr, b, i, fake, inline_ok=False)
+        return None
 
     def op_Go(self, st, fr, b, i, ins):
         name = (ins['call'].get('fn') or {}).get('name', 'closure')
@@ -749,6 +773,10 @@ class Instrs(CallsMixin):
             # elems(T): every backing array with elements of type T
             t = ev.ev(e[2][0])
             return ModTarget('region', fam='elems', tk=st.elems_tk(t.t))
+        if e[0] == 'call' and e[1] == ('id', 'fields') and len(e[2]) == 2 and e[2][1][0] == 'id':
+            # fields(T, f): field f of every object of struct type T
+            t = ev.ev(e[2][0])
+            return ModTarget('region', fam='obj', tk=types.canon(t.t), prefix=('.' + e[2][1][1],))
         if e[0] == 'slice':
             x = ev.deref_auto(ev.ev(e[1]))
             if types.kind(x.t) != 'slice':
@@ -809,7 +837,8 @@ class Instrs(CallsMixin):
                     st.heap.set(key, z3.Store(reg, sl.lv[('b',)], new))
         elif t.kind == 'region':
             from .calls import fresh_evid
-            ev = Event(fresh_evid(), lambda key, t=t: key[0] == t.fam and key[1] == t.tk, st.frontier, None, why)
+            pre = getattr(t, 'prefix', None)
+            ev = Event(fresh_evid(), lambda key, t=t, pre=pre: key[0] == t.fam and key[1] == t.tk and (not pre or key[2][:len(pre)] == pre), st.frontier, None, why)
             st.heap.havoc(ev, st.alloc0)
         elif t.kind == 'map':
             for key in list(st.heap.r.keys()):
